@@ -613,9 +613,10 @@ func zzPeerChain13ClientFlight() {
 
 // Both DTLS 1.3 roles, certificate chains whose total size crosses 2^16 bytes (round 9 left this outside the
 // bounds; seed C01h-2): the flight EncryptedExtensions (server only), Certificate, CertificateVerify, Finished
-// where the certificate_list has 2 or 3 entries - a leaf of 65533, 65534 or 70000 bytes (fixed filler, one
-// arbitrary byte in the middle) followed by one or two arbitrary 2-byte certificates, so the running total is
-// 65535, 65536 or beyond after the second entry -, every verification succeeding or not. Same predicate as the
+// where the certificate_list has 2 or 3 entries - a leaf of 239 / 240 bytes (Certificate body of 255 / 256 bytes:
+// the one-byte boundary of the message length) or of 65533, 65534 or 70000 bytes (fixed filler, one arbitrary
+// byte in the middle) followed by one or two arbitrary 2-byte certificates, so the running total is 65535, 65536
+// or beyond after the second entry -, every verification succeeding or not. Same predicate as the
 // small entries; the part that matters here: state.PeerCertificates and the lists handed to CertificateVerify,
 // the chain check and the callbacks are the WHOLE presented list. The transcript hash of inputs above 4 KiB is
 // abstracted (zzA13TH), so transcript coverage is not claimed by this entry.
@@ -624,7 +625,7 @@ func zzPeerChain13ClientFlight() {
 func zzPeerChain13BigChain() {
 	peerIsClient := zzsymChoice("peer_is_client", 2) == 1
 	sc := zzA13Build(peerIsClient, false, zzsymChoice("callbacks", 2) == 1)
-	leafLen := []int{65533, 65534, 70000}[zzsymChoice("leaf_len", 3)]
+	leafLen := []int{239, 240, 65533, 65534, 70000}[zzsymChoice("leaf_len", 5)]
 	leaf := make([]byte, leafLen)
 	for i := range leaf {
 		leaf[i] = byte(i*7 + 1)
